@@ -202,6 +202,8 @@ def check(src, rep):
         rep.undecide("R5 AutoDecoder table not constant")
     if ok5:
         rep.ok("R5", "entry points", "decode_p1_readout, decode_p1_readout_content and AutoDecoder's P1 entry all reach _decode_parsed on parse_p1_readout_content of the same payload bytes")
+    from sa.cross import include
+    include(rep, src, "C12", {"R1", "R2", "R5"}, "R5", "the same block decodes identically through AutoDecoder (for every history)")
     # ---------------------------------------------------------------- R6 line / value splitting
     pdb = M.classes[(MOD, "DataSet")].methods.get("parse_data_block") if (MOD, "DataSet") in M.classes else None
     rep.require(pdb is not None, "anchor vanished: DataSet.parse_data_block")
